@@ -234,6 +234,14 @@ func setProcs(n int) int {
 // withProcsNoSet runs f; used where GOMAXPROCS has been set once for a whole concurrent round.
 func withProcsNoSet(f func()) { f() }
 
+type queryObserverKey struct{}
+
+// WithQueryObserver returns a context that makes execOn hand the created query object to f before
+// it calls Exec (used to drive Cancel/Close from other goroutines).
+func WithQueryObserver(ctx context.Context, f func(promql.Query)) context.Context {
+	return context.WithValue(ctx, queryObserverKey{}, f)
+}
+
 func execOn(ctx context.Context, e QueryEngine, st storage.Queryable, cfg EngineCfg, q string, w Window, phase func(int32)) ExecOut {
 	var out ExecOut
 	withProcs(cfg.Procs, func() {
@@ -242,15 +250,29 @@ func execOn(ctx context.Context, e QueryEngine, st storage.Queryable, cfg Engine
 			out = ExecOut{Res: Result{Type: "none", Err: err, ErrClass: classify(err)}, CreateErr: true}
 			return
 		}
+		if f, ok := ctx.Value(queryObserverKey{}).(func(promql.Query)); ok {
+			f(qry)
+		}
 		out.Native = strings.Contains(fmt.Sprintf("%T", qry), "compatibilityQuery")
 		res := qry.Exec(ctx)
 		if phase != nil {
 			phase(1)
 		}
 		out.Res = Canon(res)
-		qry.Close()
+		if claim, ok := ctx.Value(closeClaimKey{}).(func() bool); !ok || claim() {
+			qry.Close()
+		}
 	})
 	return out
+}
+
+type closeClaimKey struct{}
+
+// WithCloseClaim: execOn closes the query only if claim() returns true. Lets a harness goroutine
+// that closes the query itself make sure Close is called exactly once (the Prometheus query behind
+// a fallback recycles its point slices on every Close).
+func WithCloseClaim(ctx context.Context, claim func() bool) context.Context {
+	return context.WithValue(ctx, closeClaimKey{}, claim)
 }
 
 // RunEngine executes q on the engine under test.
